@@ -52,6 +52,7 @@ type tcase struct {
 	Ops     []opT   `json:"ops"`
 	Threads [][]opT `json:"threads"`
 	E2E     *e2eCase `json:"e2e"`
+	Rounds  int      `json:"rounds"`
 }
 
 // state as [subj, auth, resource]; nil pointer -> nil slice (JSON null)
@@ -114,6 +115,7 @@ type result struct {
 	Outs  []stepOut `json:"outs,omitempty"`
 	Hist  [][]any   `json:"hist,omitempty"`
 	E2E   *e2eOut   `json:"e2e,omitempty"`
+	Race  *e2eRaceOut `json:"e2erace,omitempty"`
 	Panic *string   `json:"panic"`
 }
 
@@ -336,6 +338,10 @@ func runCase(c tcase) (res result) {
 		res.Hist = runConc(c)
 	case "e2e":
 		res.E2E = runE2E(c.E2E)
+	case "e2erace":
+		res.Race = runE2ERace(c.Rounds)
+	case "ctlrace":
+		res.Race = runCtlRace(c.Rounds)
 	default:
 		res.Outs = runCtl(c)
 	}
@@ -356,4 +362,51 @@ func main() {
 		_ = enc.Encode(runCase(c))
 		out.Flush()
 	}
+}
+
+// runCtlRace: a gate is released while another one is opened on the same range. If the
+// release reports that nobody is left in control (the region's resource is handed back
+// to the caller for disposal), the gate opened concurrently must not be given that same
+// resource: in every sequential order it either joined before the release (and then
+// receives control from it) or opened a fresh region afterwards.
+func runCtlRace(rounds int) *e2eRaceOut {
+	out := &e2eRaceOut{Rounds: rounds, Failures: []string{}}
+	r := newRun(false)
+	for i := 0; i < rounds; i++ {
+		gA, _, err := r.open(opT{Subj: 1, Auth: 100, S: 0, E: int64(telem.TimeStampMax)})
+		if err != nil {
+			out.Failures = append(out.Failures, fmt.Sprintf("round %d: open A: %v", i, err))
+			break
+		}
+		var (
+			gB   *control.Gate[resource]
+			tA   control.Transfer
+			resA resource
+			errB error
+			wg   sync.WaitGroup
+		)
+		wg.Add(2)
+		go func() { defer wg.Done(); resA, tA = gA.Release() }()
+		go func() {
+			defer wg.Done()
+			gB, _, errB = r.open(opT{Subj: 2, Auth: 100, S: 0, E: int64(telem.TimeStampMax)})
+		}()
+		wg.Wait()
+		if errB != nil {
+			out.Failures = append(out.Failures, fmt.Sprintf("round %d: open B: %v", i, errB))
+			break
+		}
+		resB, errAz := gB.Authorize()
+		if errAz != nil {
+			out.Failures = append(out.Failures, fmt.Sprintf("round %d: B is the only open gate but is not authorized: %v", i, errAz))
+		} else if tA.From != nil && tA.To == nil && resB.key == resA.key {
+			out.Expected++
+			if len(out.Failures) < 8 {
+				out.Failures = append(out.Failures, fmt.Sprintf(
+					"round %d: Release of A reported a full release of resource %d, yet the gate opened concurrently was attached to the same resource", i, resA.key))
+			}
+		}
+		gB.Release()
+	}
+	return out
 }
